@@ -3,3 +3,4 @@ import Omaha.Version
 import Omaha.Time
 import Omaha.Cup
 import Omaha.Request
+import Omaha.Response
